@@ -54,7 +54,11 @@ pub struct Lit {
     pub class: &'static str,
 }
 
-const INDENTS: &[&str] = &["", " ", "  ", "    ", "\t", "\t\t", "  \t", "      ", "\u{3000}", " \u{b}", "\u{c}"];
+const INDENTS: &[&str] = &[
+    "", " ", "  ", "    ", "\t", "\t\t", "  \t", "      ", "\u{3000}", " \u{b}", "\u{c}",
+    // exotic and ASCII blanks mixed in either order
+    "\u{3000} ", "\u{3000}\t ", " \u{3000} ", "\u{3000}\u{3000}  ", "\t\u{3000}",
+];
 const ENDINGS: &[&str] = &["\n", "\r\n", "\r"];
 
 /// The full G-mlstr: quote runs 3/5/7, interior endings LF/CR/CRLF/mixed, closing-line indentation
